@@ -1,6 +1,6 @@
 (* C03 — PostgreSQL statement sequences are executable and leave the declared schema (interpreted by a
    PostgreSQL catalog model: coq/pg/Model/Engine.v, modelled, not verified).  Pinned statements only. *)
-From VV.PG Require Import WitnessP SimKindsP.
+From VV.PG Require Import WitnessP SimKindsP SimCreateP SimColumnP.
 
 (* ---------- the full-strength target (a definition, not a claim) ----------
    for every baseline and every action list whose replay succeeds, executing gen_plan from
@@ -139,8 +139,9 @@ Print Assumptions C03_sim_pg_modify_column_comment.
 Check C03_sim_pg_modify_column_comment : forall s tn cn d,
   hyp_modify_comment s tn cn = true -> step_sim s (ModifyColumnComment tn cn d).
 
-(* Index / Unique / Check.  _partial: PrimaryKey and ForeignKey are not covered (ADD PRIMARY KEY changes NOT NULL
-   flags and, with auto_increment, is refuted — K12; ADD FOREIGN KEY needs the A1 target-key argument) *)
+(* all five kinds: Index / Unique (CREATE INDEX), Check, ForeignKey (the target has a key over exactly the referenced
+   columns: A1 on the database as it is), PrimaryKey (no key yet, auto_increment false — with auto_increment the
+   statement is refuted: K12).  The name keeps its _partial suffix for continuity; nothing is left out *)
 Theorem C03_sim_pg_add_constraint_partial : forall s tn k,
   hyp_add_constraint s tn k = true -> step_sim s (AddConstraint tn k).
 Proof. exact sim_pg_add_constraint. Qed.
@@ -148,14 +149,46 @@ Print Assumptions C03_sim_pg_add_constraint_partial.
 Check C03_sim_pg_add_constraint_partial : forall s tn k,
   hyp_add_constraint s tn k = true -> step_sim s (AddConstraint tn k).
 
-(* Index / Check / ForeignKey.  _partial: Unique (needs "no foreign key depends on the unique index") and PrimaryKey
-   (refuted under a referencing foreign key — K15) are not covered *)
+(* Index / Unique / Check / ForeignKey (Unique: no foreign key needs the index); the primary key is the next theorem *)
 Theorem C03_sim_pg_remove_constraint_partial : forall s tn k,
   hyp_remove_constraint s tn k = true -> step_sim s (RemoveConstraint tn k).
 Proof. exact sim_pg_remove_constraint. Qed.
 Print Assumptions C03_sim_pg_remove_constraint_partial.
 Check C03_sim_pg_remove_constraint_partial : forall s tn k,
   hyp_remove_constraint s tn k = true -> step_sim s (RemoveConstraint tn k).
+
+(* the primary key: outside K12 (auto_increment), K15 (a foreign key needs the key's index); key columns declared
+   NOT NULL (A2) *)
+Theorem C03_sim_pg_remove_pk : forall s tn k, hyp_remove_pk s tn k = true -> step_sim s (RemoveConstraint tn k).
+Proof. exact sim_pg_remove_pk. Qed.
+Print Assumptions C03_sim_pg_remove_pk.
+Check C03_sim_pg_remove_pk : forall s tn k, hyp_remove_pk s tn k = true -> step_sim s (RemoveConstraint tn k).
+
+(* SET / DROP NOT NULL (with the back-fill UPDATE); DROP NOT NULL not on a key column (A2) *)
+Theorem C03_sim_pg_modify_column_nullable : forall s tn cn b fw,
+  hyp_modify_nullable s tn cn b = true -> step_sim s (ModifyColumnNullable tn cn b fw).
+Proof. exact sim_pg_modify_column_nullable. Qed.
+Print Assumptions C03_sim_pg_modify_column_nullable.
+Check C03_sim_pg_modify_column_nullable : forall s tn cn b fw,
+  hyp_modify_nullable s tn cn b = true -> step_sim s (ModifyColumnNullable tn cn b fw).
+
+(* SET / DROP DEFAULT.  _partial: the text SET DEFAULT stores must be the text the baseline renders (they differ for
+   now() vs CURRENT_TIMESTAMP and the like: the oracle compares such defaults modulo canon_default, the theorem
+   literally) *)
+Theorem C03_sim_pg_modify_column_default_partial : forall s tn cn d,
+  hyp_modify_default s tn cn d = true -> step_sim s (ModifyColumnDefault tn cn d).
+Proof. exact sim_pg_modify_column_default. Qed.
+Print Assumptions C03_sim_pg_modify_column_default_partial.
+Check C03_sim_pg_modify_column_default_partial : forall s tn cn d,
+  hyp_modify_default s tn cn d = true -> step_sim s (ModifyColumnDefault tn cn d).
+
+(* ALTER COLUMN .. TYPE.  _partial: between two non-enum types (the enum paths are K2/K3/K9 or still unproved) *)
+Theorem C03_sim_pg_modify_column_type_partial : forall s tn cn ty fw,
+  hyp_modify_type s tn cn ty = true -> step_sim s (ModifyColumnType tn cn ty fw).
+Proof. exact sim_pg_modify_column_type. Qed.
+Print Assumptions C03_sim_pg_modify_column_type_partial.
+Check C03_sim_pg_modify_column_type_partial : forall s tn cn ty fw,
+  hyp_modify_type s tn cn ty = true -> step_sim s (ModifyColumnType tn cn ty fw).
 
 (* outside K4 (inbound foreign key) and K8 (string enum column) *)
 Theorem C03_sim_pg_delete_table : forall s tn, hyp_delete_table s tn = true -> step_sim s (DeleteTable tn).
@@ -180,6 +213,16 @@ Print Assumptions C03_sim_pg_delete_column_partial.
 Check C03_sim_pg_delete_column_partial : forall s tn cn,
   hyp_delete_column s tn cn = true -> step_sim s (DeleteColumn tn cn).
 
+(* outside K1 (CHECK), K9/K10 (enum type name folded / clashing), K11 (name clashes), K17 (foreign-key target not
+   ready): enum types, primary key, serial columns, foreign keys (self references included), unique and plain indexes
+   are all covered.  The name keeps its _partial suffix for continuity *)
+Theorem C03_sim_pg_create_table_partial : forall s tn cols ks,
+  hyp_create_table s tn cols ks = true -> step_sim s (CreateTable tn cols ks).
+Proof. exact sim_pg_create_table. Qed.
+Print Assumptions C03_sim_pg_create_table_partial.
+Check C03_sim_pg_create_table_partial : forall s tn cols ks,
+  hyp_create_table s tn cols ks = true -> step_sim s (CreateTable tn cols ks).
+
 (* ---------- the hypotheses are satisfiable by non-trivial values ---------- *)
 Example ex_modify_comment : hyp_modify_comment w_d2 "post" "user_id" = true.
 Proof. vm_compute. reflexivity. Qed.
@@ -200,6 +243,32 @@ Proof. vm_compute. reflexivity. Qed.
 Example ex_delete_column : hyp_delete_column w_d18 "t" "a" = false /\ hyp_delete_column w_shared "t" "id" = false
   /\ hyp_delete_column [mkTable "t" None [icol "id"; ncol "note" (TSimple Text)] [pk_id; CCheck "c" "id > 0"]] "t" "note" = true.
 Proof. vm_compute. repeat split. Qed.
+Example ex_create_table :
+  hyp_create_table w_t "post"
+    [mkCol "id" (TSimple BigInt) false None None (Some (PKObj true)) None None None;
+     mkCol "t_id" (TSimple Integer) true None None None None (Some (SBool true)) (Some (FKStr "t.id"));
+     mkCol "parent" (TSimple BigInt) true None None None None None None;
+     mkCol "title" (TVarchar 32) false (Some (DStr "'x'")) None None (Some (SStr "k")) None None]
+    [CForeignKey None ["parent"] "post" ["id"] (Some Cascade) None] = true.
+Proof. vm_compute. reflexivity. Qed.
+Example ex_add_fk : hyp_add_constraint w_d2 "post" (CForeignKey (Some "k") ["id"] "user" ["id"] (Some Cascade) None) = true.
+Proof. vm_compute. reflexivity. Qed.
+Example ex_add_pk : hyp_add_constraint [mkTable "t" None [icol "id"; ncol "a" (TSimple Integer)] []] "t" (CPrimaryKey false ["id"]) = true.
+Proof. vm_compute. reflexivity. Qed.
+Example ex_remove_unique :
+  hyp_remove_constraint [mkTable "t" None [icol "id"; ncol "a" (TSimple Integer)] [pk_id; CUnique None ["a"]]] "t" (CUnique None ["a"]) = true.
+Proof. vm_compute. reflexivity. Qed.
+Example ex_remove_pk : hyp_remove_pk w_t "t" pk_id = true /\ hyp_remove_pk w_d2 "user" pk_id = false.
+Proof. vm_compute. split; reflexivity. Qed.
+Example ex_modify_nullable : hyp_modify_nullable w_d2 "post" "user_id" false = true /\ hyp_modify_nullable w_d2 "post" "id" true = false.
+Proof. vm_compute. split; reflexivity. Qed.
+Example ex_modify_default : hyp_modify_default w_d2 "post" "user_id" (Some "42") = true /\ hyp_modify_default w_d2 "post" "user_id" (Some "now()") = false.
+Proof. vm_compute. split; reflexivity. Qed.
+Example ex_modify_type : hyp_modify_type w_d2 "post" "user_id" (TNumeric 10 2) = true.
+Proof. vm_compute. reflexivity. Qed.
+Example ex_create_table_enum :
+  hyp_create_table w_t "post" [icol "id"; ncol "st" w_status; ncol "st2" w_status; ncol "lvl" w_level] [pk_id] = true.
+Proof. vm_compute. reflexivity. Qed.
 (* a two-migration history every step of which falls under a proved lemma, hence (C03_Sim_history) runs to catalog_of *)
 Example ex_history :
   run_history (catalog_of w_d2) w_d2
